@@ -88,6 +88,7 @@ ConnRef::ConnRef(Router *router, const ConnEnd& src, const ConnEnd& dst,
       m_route_dist(0),
       m_src_vert(nullptr),
       m_dst_vert(nullptr),
+      m_start_vert(nullptr),
       m_callback_func(nullptr),
       m_connector(nullptr),
       m_src_connend(nullptr),
